@@ -2,6 +2,7 @@ mod choices;
 mod core;
 mod gen_clvm;
 mod gen_lisp;
+mod gen_text;
 mod gen_value;
 mod known;
 mod orch;
@@ -160,6 +161,7 @@ fn main() {
             std::process::exit(orch::run_property(prop, tier, seed, &root));
         }
         "worker" => {
+            worker::limit_memory();
             let id = args.get(2).unwrap_or_else(|| usage());
             let prop = props::lookup(id).expect("property");
             let resume = arg_after(&args, "--resume").and_then(|s| {
@@ -179,6 +181,7 @@ fn main() {
             std::process::exit(worker::worker_main(prop, wa));
         }
         "one" | "replay" => {
+            worker::limit_memory();
             // run a single case in this process (big stack), print the verdict
             let is_replay = args[1] == "replay";
             let (prop, file) = if is_replay {
